@@ -406,45 +406,113 @@ pub fn number_to_string(
         ))));
     }
 
-    // For other radixes, we need integer conversion
-    if !n.is_finite() || math::fract(n) != 0.0 {
+    if !n.is_finite() {
         return Ok(Guarded::unguarded(JsValue::String(JsString::from(
             format_number_js(n),
         ))));
     }
 
-    let int_val = n as i64;
-    let result = match radix {
-        2 => format!("{:b}", int_val.abs()),
-        8 => format!("{:o}", int_val.abs()),
-        16 => format!("{:x}", int_val.abs()),
-        _ => {
-            // Generic radix conversion
-            const DIGITS: &[u8] = b"0123456789abcdefghijklmnopqrstuvwxyz";
-            let mut num = int_val.abs();
-            let mut result = String::new();
-            while num > 0 {
-                let digit_idx = (num % radix as i64) as usize;
-                // radix is validated to be 2-36, so digit_idx is always 0-35
-                if let Some(&ch) = DIGITS.get(digit_idx) {
-                    result.insert(0, ch as char);
+    Ok(Guarded::unguarded(JsValue::String(JsString::from(
+        number_to_radix_string(n, radix as u32),
+    ))))
+}
+
+/// Digits of a finite number in radix 2..=36 (radix 10 is handled by the caller): the integer
+/// part exactly, the fraction with as many digits as are needed to identify the double
+/// (the generalization of radix-10 printing the spec asks for; same scheme as V8).
+fn number_to_radix_string(n: f64, radix: u32) -> String {
+    const DIGITS: &[u8] = b"0123456789abcdefghijklmnopqrstuvwxyz";
+    let digit_char = |d: u32| DIGITS.get(d as usize).map(|c| *c as char).unwrap_or('0');
+    let radix_f = radix as f64;
+    let value = n.abs();
+    let mut integer = math::floor(value);
+    let mut fraction = value - integer;
+
+    // half the distance to the next double, at least the smallest positive double
+    let next = f64::from_bits(value.to_bits() + 1);
+    let mut delta = 0.5 * (next - value);
+    if !(delta > 0.0) || !delta.is_finite() {
+        delta = f64::from_bits(1);
+    }
+
+    let mut fraction_digits: Vec<u32> = Vec::new();
+    if fraction >= delta {
+        loop {
+            fraction *= radix_f;
+            delta *= radix_f;
+            let digit = fraction as u32;
+            fraction_digits.push(digit);
+            fraction -= digit as f64;
+            // round to even when the rest is exactly one half
+            if (fraction > 0.5 || (fraction == 0.5 && digit % 2 == 1)) && fraction + delta > 1.0 {
+                // round up, propagating the carry (possibly into the integer part)
+                loop {
+                    match fraction_digits.pop() {
+                        None => {
+                            integer += 1.0;
+                            break;
+                        }
+                        Some(d) if d + 1 < radix => {
+                            fraction_digits.push(d + 1);
+                            break;
+                        }
+                        Some(_) => {}
+                    }
                 }
-                num /= radix as i64;
+                break;
             }
-            if result.is_empty() {
-                result = "0".to_string();
+            if fraction < delta {
+                break;
             }
-            result
         }
-    };
+    }
 
-    let result = if int_val < 0 {
-        format!("-{}", result)
+    // integer digits, least significant first, exact: a double's integer part is m * 2^k
+    let mut integer_digits: Vec<u32> = Vec::new();
+    if integer < 18446744073709551616.0 {
+        let mut v = integer as u64;
+        loop {
+            integer_digits.push((v % radix as u64) as u32);
+            v /= radix as u64;
+            if v == 0 {
+                break;
+            }
+        }
     } else {
-        result
-    };
+        let bits = integer.to_bits();
+        let mantissa = (bits & ((1u64 << 52) - 1)) | (1u64 << 52);
+        let shift = ((bits >> 52) & 0x7ff) as usize - 1075; // > 0 for values >= 2^64
+        // little-endian base-2^32 limbs of mantissa << shift
+        let mut limbs: Vec<u32> = vec![0; shift / 32 + 3];
+        let wide = (mantissa as u128) << (shift % 32);
+        for (i, limb) in limbs.iter_mut().skip(shift / 32).take(3).enumerate() {
+            *limb = (wide >> (32 * i)) as u32;
+        }
+        while limbs.iter().any(|l| *l != 0) {
+            let mut remainder = 0u64;
+            for limb in limbs.iter_mut().rev() {
+                let cur = (remainder << 32) | *limb as u64;
+                *limb = (cur / radix as u64) as u32;
+                remainder = cur % radix as u64;
+            }
+            integer_digits.push(remainder as u32);
+        }
+    }
 
-    Ok(Guarded::unguarded(JsValue::String(JsString::from(result))))
+    let mut result = String::new();
+    if n < 0.0 {
+        result.push('-');
+    }
+    for d in integer_digits.iter().rev() {
+        result.push(digit_char(*d));
+    }
+    if !fraction_digits.is_empty() {
+        result.push('.');
+        for d in &fraction_digits {
+            result.push(digit_char(*d));
+        }
+    }
+    result
 }
 
 // Number.prototype.toPrecision
